@@ -22,7 +22,7 @@ MANIFEST = {
 }
 GEN = ["FiberConst"]
 MODELS = ["OptiVerif.Model.Fiber", "OptiVerif.Model.Fourier", "OptiVerif.Gen.FiberConst"]
-RULE = ("cases = (device DM|FIBER, n_pol, length odd/even/prime/2^k, D or (alpha,beta2,beta3,L), gv(sps,R), noise?) with random "
+RULE = ("cases = (device DM|FIBER, n_pol, length odd/even/prime/2^k, D or (alpha,beta2,beta3,L), gv configured through (sps,R) | (R,fs) incl. non-integer fs/R | fs alone | (sps,fs), noise?, dark polarisation x|y|all-zero record) with random "
         "complex fields; non-trivial = length>=3 and non-zero dispersion or loss; distinct by all parameters")
 PARTIAL = ["numpy's FFT is trusted to compute the DFT; Float rounding not covered by theorems",
            "power clause 10^(-alpha*L/10) is checked by the oracle at the tolerance implied by the code's constant 4.343"]
@@ -34,17 +34,22 @@ def gen_cases(rng, tier):
     cases = []
     lens = [3, 4, 5, 8, 17, 32, 33, 64, 127] if tier == "quick" else [2, 3, 4, 5, 7, 8, 9, 16, 17, 31, 32, 33, 64, 65, 127, 128, 251, 256]
     reps = 3 if tier == "quick" else 8
-    gvs = [(16, 10e9), (8, 1e9), (5, 40e9), (33, 2.5e9)]
+    # every way of configuring the sampling grid, integer and NON-integer fs/R included (the filter lives on gv.fs)
+    gvs = [{"sps": 16, "R": 10e9}, {"sps": 8, "R": 1e9}, {"sps": 5, "R": 40e9}, {"sps": 33, "R": 2.5e9},
+           {"R": 10e9, "fs": 25e9}, {"R": 28e9, "fs": 50e9}, {"fs": 12.4e9}, {"sps": 8, "fs": 80e9}]
     for n in lens:
         for npol in (1, 2):
             for _ in range(reps):
-                sps, R = rng.choice(gvs)
-                fs = sps * R
+                g = rng.choice(gvs)
+                fs = _fs_of(g)
+                sps, R = g.get("sps"), g.get("R")
+                # dark rows: an unlit polarisation ([E,0] / [0,E]) or an all-zero record must stay exactly dark
+                dark = rng.choice([None, None, None, "x", "y"]) if npol == 2 else rng.choice([None] * 7 + ["all"])
                 # dispersion scaled so that w_max^2*D/2 spans a few radians:  w_max = pi*fs
                 Dscale = 2.0 / (np.pi * fs * 1e-12) ** 2
                 D = rng.choice([-1, 1]) * rng.uniform(0.05, 4.0) * Dscale
                 D2 = rng.choice([-1, 1]) * rng.uniform(0.05, 4.0) * Dscale
-                cases.append({"kind": "dm", "n": n, "npol": npol, "sps": sps, "R": R, "D": D, "D2": D2,
+                cases.append({"kind": "dm", "n": n, "npol": npol, "sps": sps, "R": R, "gv": g, "dark": dark, "D": D, "D2": D2,
                               "noise": rng.random() < 0.4, "seed": rng.getrandbits(32)})
                 L = rng.uniform(0.5, 100.0)
                 L2 = rng.uniform(0.5, 100.0)
@@ -53,15 +58,25 @@ def gen_cases(rng, tier):
                 alpha = rng.choice([0.0, rng.uniform(0.0, 0.5), rng.uniform(0.0, 0.5)])
                 if b2 == 0 and rng.random() < 0.7:
                     b3 = 0.0          # dispersion-free span (loss only, or nothing at all)
-                cases.append({"kind": "fiber", "n": n, "npol": npol, "sps": sps, "R": R, "alpha": alpha, "b2": b2, "b3": b3,
+                cases.append({"kind": "fiber", "n": n, "npol": npol, "sps": sps, "R": R, "gv": g, "dark": dark, "alpha": alpha, "b2": b2, "b3": b3,
                               "L": L, "L2": L2, "noise": rng.random() < 0.4, "seed": rng.getrandbits(32)})
-    for n in ([5, 8] if tier == "quick" else lens):
-        sps, R = rng.choice(gvs)
-        cases.append({"kind": "reth", "n": n, "npol": 1, "sps": sps, "R": R, "D": rng.uniform(-1, 1) * 2.0 / (np.pi * sps * R * 1e-12) ** 2,
+    for n in ([5, 8, 9] if tier == "quick" else lens):
+        g = rng.choice(gvs)
+        cases.append({"kind": "reth", "n": n, "npol": 1, "sps": g.get("sps"), "R": g.get("R"), "gv": g,
+                      "D": rng.uniform(-1, 1) * 2.0 / (np.pi * _fs_of(g) * 1e-12) ** 2,
                       "noise": False, "seed": rng.getrandbits(32)})
     cases.append({"kind": "badtype", "n": 4, "npol": 1, "sps": 16, "R": 1e9, "noise": False, "seed": 1})
     rng.shuffle(cases)
     return cases
+
+
+def _gv_of(case):
+    return case.get("gv") or {"sps": case["sps"], "R": case["R"]}
+
+
+def _fs_of(g):
+    """the sampling rate a gv(**g) call configures: the requested fs when given, else R*sps (defaults R=1e9, sps=16)"""
+    return g["fs"] if "fs" in g else g.get("R", 1e9) * g.get("sps", 16)
 
 
 def _field(case):
@@ -69,6 +84,11 @@ def _field(case):
     shape = (case["n"],) if case["npol"] == 1 else (2, case["n"])
     s = r.normal(size=shape) + 1j * r.normal(size=shape)
     nz = (r.normal(size=shape) + 1j * r.normal(size=shape)) * 0.1 if case["noise"] else None
+    d = case.get("dark")
+    if d == "all":
+        s = s * 0
+    elif d in ("x", "y"):
+        s[0 if d == "x" else 1] = 0
     return s, nz
 
 
@@ -86,7 +106,7 @@ def run_impl(case):
         with warnings.catch_warnings():
             warnings.simplefilter("ignore")
             gv.clean()
-            gv(sps=case["sps"], R=case["R"])
+            gv(**_gv_of(case))
             res["fs"] = float(gv.fs)
             s, nz = _field(case)
             x = optical_signal(s, nz, n_pol=case["npol"])
@@ -173,7 +193,7 @@ def _cmp_rows(name, reply, rows, n):
             return [f"{name} row {r}: length {len(mr)} vs {len(iv)}"]
         scale = max(1.0, max(abs(z) for z in iv))
         for k, (a, b) in enumerate(zip(mr, iv)):
-            if abs(a - b) > 1e-9 * scale * max(1, n):
+            if not (abs(a - b) <= 1e-9 * scale * max(1, n)):
                 return [f"{name} row {r} sample {k}: model {a!r} impl {b!r}"]
     return []
 
@@ -187,7 +207,7 @@ def compare(case, res, reqs, replies):
         if replies[0].startswith("ok "):
             H = Toks(replies[0][3:]).clist()
             iv = [complex(a, b) for a, b in res["H"]]
-            if len(H) != len(iv) or any(abs(a - b) > 1e-9 for a, b in zip(H, iv)):
+            if len(H) != len(iv) or any(not (abs(a - b) <= 1e-9) for a, b in zip(H, iv)):
                 out.append("retH differs between model and implementation")
         else:
             out.append(f"model reply {replies[0][:60]}")
@@ -208,7 +228,9 @@ def oracle(case, res):
             v.append(("C07:fiber-type", f"FIBER(ndarray) -> {res['fiber_type']}, TypeError required"))
         return v
     n = case["n"]
-    fs = case["sps"] * case["R"]
+    fs = _fs_of(_gv_of(case))
+    if not (abs(res["fs"] - fs) <= 1e-9 * fs):
+        v.append(("C07:fs", f"gv.fs={res['fs']} but the configured sampling rate is {fs}"))
     eps = 2.2e-16 * 64 * max(1, n)
     a = np.array([[complex(p, q) for p, q in row] for row in res["inp"]])
     o = np.array([[complex(p, q) for p, q in row] for row in res["out"]])
@@ -217,10 +239,10 @@ def oracle(case, res):
     if case["kind"] == "reth":
         Href = np.fft.fftshift(np.exp(-1j * w ** 2 * case["D"] * 1e-24 / 2))
         H = np.array([complex(p, q) for p, q in res["H"]])
-        if H.shape != Href.shape or np.max(np.abs(H - Href)) > 1e-9:
+        if H.shape != Href.shape or not (np.max(np.abs(H - Href)) <= 1e-9):
             v.append(("C07:retH", "retH does not match exp(-j w^2 D/2) on the fftshift-ed grid"))
         ref = np.fft.ifft(np.fft.fft(a, axis=-1) * np.fft.ifftshift(H), axis=-1)
-        if np.max(np.abs(ref - o)) > 1e-9 * scale * n:
+        if not (np.max(np.abs(ref - o)) <= 1e-9 * scale * n):
             v.append(("C07:retH-applied", "the response returned by retH is not the filter that was applied"))
         return v
     if case["kind"] == "dm":
@@ -231,7 +253,7 @@ def oracle(case, res):
         H = np.exp((-ap / 2 - 1j * case["b2"] * wp ** 2 / 2 - 1j * case["b3"] * wp ** 3 / 6) * case["L"])
     ref = np.fft.ifft(np.fft.fft(a, axis=-1) * H, axis=-1)
     tol = 1e-9 * scale * n + (2e-5 * case.get("alpha", 0) * case.get("L", 0) / 4.343) * scale
-    if o.shape != ref.shape or np.max(np.abs(o - ref)) > tol:
+    if o.shape != ref.shape or not (np.max(np.abs(o - ref)) <= tol):
         v.append((f"C07:{case['kind']}-filter", f"{case['kind']} output differs from the LTI reference filter by {np.max(np.abs(o - ref)):.3e} (n={n})"))
     if res["cls"] != "optical_signal" or res["npol"] != case["npol"] or res["shape"] != list(a.shape if case["npol"] == 2 else (n,)):
         v.append(("C07:shape", f"layout not preserved: {res['cls']} n_pol={res['npol']} shape={res['shape']}"))
@@ -239,28 +261,31 @@ def oracle(case, res):
         v.append(("C07:input-modified", "the input object was modified"))
     e_in, e_out = np.array(res["e_in"]), np.array(res["e_out"])
     if case["kind"] == "dm":
-        if np.any(np.abs(e_out - e_in) > 1e-12 * n * np.maximum(1.0, e_in)):
+        if not np.all(np.abs(e_out - e_in) <= 1e-12 * n * np.maximum(1.0, e_in)):
             v.append(("C07:dm-energy", f"DM changed the energy: {e_in} -> {e_out}"))
-        if res["inv_err"] > eps * scale * 4:
+        if not (res["inv_err"] <= eps * scale * 4):
             v.append(("C07:dm-inverse", f"DM(-D)(DM(D)x) differs from x by {res['inv_err']:.3e}"))
-        if res["add_err"] > eps * scale * 4:
+        if not (res["add_err"] <= eps * scale * 4):
             v.append(("C07:dm-additive", f"DM(D1)DM(D2) differs from DM(D1+D2) by {res['add_err']:.3e}"))
     else:
         lossdb = case["alpha"] * case["L"]
         want = e_in * 10 ** (-lossdb / 10)
         rtol = 2e-5 * lossdb / 4.343 + 1e-9 * n
-        if np.any(np.abs(e_out - want) > rtol * np.maximum(want, 1e-300)):
+        if not np.all(np.abs(e_out - want) <= rtol * np.maximum(want, 1e-300)):
             v.append(("C07:fiber-loss", f"output energy {e_out} != input*10^(-alpha L/10) {want} (alpha L = {lossdb:.3f} dB)"))
-        if res["add_err"] > (eps * 4 + 1e-12) * scale:
+        if not (res["add_err"] <= (eps * 4 + 1e-12) * scale):
             v.append(("C07:fiber-span-add", f"two spans differ from one span of summed length by {res['add_err']:.3e}"))
-        if res["fiber_dm_err"] > (eps * 4 + 1e-12) * scale:
+        if not (res["fiber_dm_err"] <= (eps * 4 + 1e-12) * scale):
             v.append(("C07:fiber-eq-dm", f"FIBER(L,beta2) differs from DM(beta2*L) by {res['fiber_dm_err']:.3e}"))
     return v
 
 
 def features(case, res):
     f = ["kind=" + case["kind"], "status=" + str(res.get("status")), f"npol={case['npol']}",
-         "n-odd" if case["n"] % 2 else "n-even", "noise" if case["noise"] else "no-noise"]
+         "n-odd" if case["n"] % 2 else "n-even", "noise" if case["noise"] else "no-noise",
+         "gv=" + "+".join(sorted(_gv_of(case))), "fs/R-" + ("integer" if float(_fs_of(_gv_of(case)) / _gv_of(case).get("R", 1e9)).is_integer() else "non-integer")]
+    if case.get("dark"):
+        f.append("dark=" + case["dark"])
     if case["kind"] == "fiber":
         f.append("lossy" if case["alpha"] > 0 else "lossless")
         f.append("beta3" if case["b3"] != 0 else "no-beta3")
@@ -270,4 +295,4 @@ def features(case, res):
 def nontrivial_key(case, res):
     if res.get("status") != "ok" or case["n"] < 3 or case["kind"] == "badtype":
         return None
-    return (case["kind"], case["n"], case["npol"], case["sps"], case["R"], case.get("D"), case.get("b2"), case.get("L"), case["seed"])
+    return (case["kind"], case["n"], case["npol"], tuple(sorted(_gv_of(case).items())), case.get("D"), case.get("b2"), case.get("L"), case["seed"])
